@@ -291,6 +291,14 @@ func (w *world) build(v vector, nonceLabel string) (*harness.AuthClient, nodeenr
 	return c, storage, may, why
 }
 
+// netOf: the harness serves on a unix socket (path) or on loopback TCP.
+func netOf(addr string) string {
+	if strings.HasPrefix(addr, "/") {
+		return "unix"
+	}
+	return "tcp"
+}
+
 type kase struct {
 	Kind   string   `json:"kind"` // vector | flip | trunc | history
 	Vector vector   `json:"vector,omitempty"`
@@ -301,7 +309,7 @@ type kase struct {
 
 func (w *world) handshake(c *harness.AuthClient, storage nodeenrollment.Storage) (harness.AcceptResult, string) {
 	var cerr error
-	rs, err := harness.Serve(harness.ServerConfig{Storage: storage}, func(addr string) {
+	rs, err := harness.Serve(harness.ServerConfig{Storage: storage, Unix: true}, func(addr string) {
 		conn, e := c.Connect(addr)
 		cerr = e
 		if conn != nil {
@@ -390,8 +398,8 @@ func (w *world) oneFetch(arr string, authorized bool, r *engine.Report) (string,
 	case "unknown-library-like-first":
 		protos = append([]string{"v1-nodee-something-else"}, fp...)
 	}
-	rs, serr := harness.Serve(harness.ServerConfig{Storage: st}, func(addr string) {
-		raw, err := net.DialTimeout("tcp", addr, 10*time.Second)
+	rs, serr := harness.Serve(harness.ServerConfig{Storage: st, Unix: true}, func(addr string) {
+		raw, err := net.DialTimeout(netOf(addr), addr, 10*time.Second)
 		if err != nil {
 			return
 		}
@@ -440,8 +448,8 @@ func (w *world) oneAfterFetch(v vector, authorizedFetch bool, r *engine.Report) 
 	}
 	raw, _ := proto.Marshal(freq)
 	fp, _ := nodetls.BreakIntoNextProtos(nodeenrollment.FetchNodeCredsNextProtoV1Prefix, base64.RawStdEncoding.EncodeToString(raw))
-	rs, serr := harness.Serve(harness.ServerConfig{Storage: storage}, func(addr string) {
-		if rc, err := net.DialTimeout("tcp", addr, 10*time.Second); err == nil {
+	rs, serr := harness.Serve(harness.ServerConfig{Storage: storage, Unix: true}, func(addr string) {
+		if rc, err := net.DialTimeout(netOf(addr), addr, 10*time.Second); err == nil {
 			tc := tls.Client(rc, &tls.Config{MinVersion: tls.VersionTLS13, InsecureSkipVerify: true, NextProtos: fp,
 				GetClientCertificate: func(*tls.CertificateRequestInfo) (*tls.Certificate, error) {
 					return &tls.Certificate{Certificate: [][]byte{harness.SelfSignedCert(k, nodeenrollment.CommonDnsName)}, PrivateKey: k.Priv}, nil
@@ -607,7 +615,7 @@ func (w *world) applyHist(h hstate, label string, r *engine.Report) (hstate, str
 		}
 		registered := h.st.NodeInfo(key.KeyId) != nil
 		var derr error
-		rs, err := harness.Serve(harness.ServerConfig{Storage: nh.st}, func(addr string) {
+		rs, err := harness.Serve(harness.ServerConfig{Storage: nh.st, Unix: true}, func(addr string) {
 			conn, e := protocol.Dial(harness.Ctx, nh.nodes[i], addr)
 			derr = e
 			if conn != nil {
